@@ -470,6 +470,39 @@ def write_facts(repo):
             "schema_copied_before_resolution": "schema = schema.copy()" in nm}
 
 
+def entry_facts(repo):
+    """F17: every entry point validates (after expanding) BEFORE it commits; fail-closed shape checks"""
+    mod = parse(repo, 'cerberus/schema.py')
+    ds = find_class(mod, 'DefinitionSchema')
+
+    def srcs(cls, name):
+        return [ast.unparse(st) for st in find_func(cls, name).body if not (isinstance(st, ast.Expr) and isinstance(st.value, ast.Constant))]
+    init = srcs(ds, '__init__')
+    if init[-3:] != ["schema = self.expand(schema)", "self.validate(schema)", "self.schema = schema"]:
+        raise TranslationError("F17", "DefinitionSchema.__init__", "expected expand; validate; commit as the last three statements")
+    if srcs(ds, '__setitem__') != ["value = self.expand({0: value})[0]", "self.validate({key: value})", "self.schema[key] = value"]:
+        raise TranslationError("F17", "DefinitionSchema.__setitem__", "expected expand; validate; commit")
+    upd = ast.unparse(find_func(ds, 'update'))
+    for needle in ("schema = self.expand(schema)", "_new_schema = self.schema.copy()", "_new_schema.update(schema)", "self.validate(_new_schema)",
+                   "else:\n        self.schema = _new_schema"):
+        if needle not in upd:
+            raise TranslationError("F17", "DefinitionSchema.update", "shape changed: missing " + needle)
+    vmod = parse(repo, 'cerberus/validator.py')
+    bv = find_class(vmod, 'BareValidator')
+    setters = {}
+    for fn in bv.body:
+        if isinstance(fn, ast.FunctionDef) and any(ast.unparse(d).endswith('.setter') for d in fn.decorator_list):
+            setters[fn.name] = ast.unparse(fn)
+    if "if not (self.is_child or isinstance(value, (bool, DefinitionSchema))):\n        DefinitionSchema(self, {'allow_unknown': value})\n    self._config['allow_unknown'] = value" not in setters.get('allow_unknown', ''):
+        raise TranslationError("F17", "allow_unknown.setter", "expected validation through DefinitionSchema before the value is stored")
+    if "else:\n        self._schema = DefinitionSchema(self, schema)" not in setters.get('schema', ''):
+        raise TranslationError("F17", "schema.setter", "expected DefinitionSchema(self, schema)")
+    ip = ast.unparse(find_func(bv, '__init_processing'))
+    if "if schema is not None:\n        self.schema = DefinitionSchema(self, schema)" not in ip:
+        raise TranslationError("F17", "__init_processing", "per-call schema must be validated before it replaces the schema")
+    return {"entry_points_validate_first": True}
+
+
 def cache_facts(repo):
     """F21: cache key shape per site (schema.py) and the freezer's scalar case (utils.py)"""
     mod = parse(repo, 'cerberus/schema.py')
@@ -598,6 +631,7 @@ def translate(repo):
     F.update(validator_facts(repo))
     F.update(cache_facts(repo))
     F.update(write_facts(repo))
+    F.update(entry_facts(repo))
     F.update(introspect(repo))
     return F
 
